@@ -55,6 +55,10 @@ ConfigOk(r) ==
 g == GeoOf(c)
 
 \* ---- requests
+\* an operand / source recorded in the standard order, as a function on the bins of the store
+FromStd(v) == [b \in bins |-> v[stdT[b] + 1]]
+SrcGeo(r) == [g EXCEPT !.minSeg = r.srcMinSeg, !.maxSeg = r.srcMaxSeg, !.ax = r.srcAx]
+ArithNames == {"Xapyb", "XapybV", "Sapyb", "SapybV", "AddPD", "SubPD", "MulPD", "DivPD", "AddF", "SubF", "MulF", "DivF"}
 BinOfRec(r) == << r.seg, r.ax, r.view, r.tang, r.tof >>
 RelPairs(r) == [i \in 1..Len(r.pairs) |-> << r.pairs[i][1], r.pairs[i][2], r.pairs[i][3] >>]
 
@@ -66,6 +70,12 @@ WriteInRange(r) ==
     [] r.e = "SetRel" -> SegOk(g, r.seg) /\ ViewOk(g, r.view) /\ TofOk(g, r.tof)
     [] r.e \in {"Fill", "FillFrom", "FillIter", "IterCopy"} -> TRUE
     [] r.e = "IterSet" -> r.pos >= 0 /\ r.pos < c.n
+    [] r.e \in ArithNames -> TRUE
+    \* fill(ProjData) from a source with another segment range: accepted iff the source has at least the same segments
+    \* ("will call error() if ... the 'source' proj_data is not compatible")
+    [] r.e \in {"FillWide", "FillNarrow"} -> LegalGeometry(SrcGeo(r)) /\ SourceCovers(g, SrcGeo(r))
+    \* xapyb / sapyb with an operand of another geometry: error("ProjDataInfo don't match"), nothing changes
+    [] r.e = "ArithBad" -> SrcGeo(r) = g
     [] OTHER -> FALSE
 
 \* arguments of an in-range write are well formed (sizes of the containers the driver built)
@@ -79,6 +89,15 @@ WriteArgsOk(r) ==
     [] r.e = "Fill" -> Len(r.vals) = 1
     [] r.e \in {"FillFrom", "FillIter", "IterCopy"} -> Len(r.vals) = c.n
     [] r.e = "IterSet" -> Len(r.vals) = 1
+    [] r.e = "Xapyb" -> ~c.fresh /\ Len(r.x) = c.n /\ Len(r.y) = c.n
+    [] r.e = "XapybV" -> ~c.fresh /\ Len(r.x) = c.n /\ Len(r.y) = c.n /\ Len(r.av) = c.n /\ Len(r.bv) = c.n
+    [] r.e \in {"Sapyb", "AddPD", "SubPD", "MulPD"} -> ~c.fresh /\ Len(r.y) = c.n
+    [] r.e = "SapybV" -> ~c.fresh /\ Len(r.y) = c.n /\ Len(r.av) = c.n /\ Len(r.bv) = c.n
+    [] r.e = "DivPD" -> ~c.fresh /\ Len(r.y) = c.n /\ DivisibleBy(store, FromStd(r.y))      \* the driver divides by what it multiplied with
+    [] r.e \in {"AddF", "SubF", "MulF"} -> ~c.fresh
+    [] r.e = "DivF" -> ~c.fresh /\ r.a # 0 /\ DivisibleBy(store, Const(store, r.a))
+    [] r.e \in {"FillWide", "FillNarrow"} -> Len(r.vals) = NumBins(SrcGeo(r))
+    [] r.e = "ArithBad" -> FALSE        \* never generated with an equal geometry
     [] OTHER -> FALSE
 
 Written(r, st) ==
@@ -91,9 +110,24 @@ Written(r, st) ==
     [] r.e = "Fill" -> [b \in bins |-> r.vals[1]]
     [] r.e \in {"FillFrom", "FillIter", "IterCopy"} -> Write(st, LAMBDA b : TRUE, LAMBDA b : stdT[b] + 1, r.vals)
     [] r.e = "IterSet" -> Write(st, LAMBDA b : stdT[b] = r.pos, LAMBDA b : 1, r.vals)
+    \* element-wise operations: the result on the array, bin by bin (operands recorded in the standard order)
+    [] r.e = "Xapyb" -> Xapyb(FromStd(r.x), r.a, FromStd(r.y), r.b)
+    [] r.e = "XapybV" -> XapybV(FromStd(r.x), FromStd(r.av), FromStd(r.y), FromStd(r.bv))
+    [] r.e = "Sapyb" -> Xapyb(st, r.a, FromStd(r.y), r.b)
+    [] r.e = "SapybV" -> XapybV(st, FromStd(r.av), FromStd(r.y), FromStd(r.bv))
+    [] r.e = "AddPD" -> AddPD(st, FromStd(r.y))
+    [] r.e = "SubPD" -> SubPD(st, FromStd(r.y))
+    [] r.e = "MulPD" -> MulPD(st, FromStd(r.y))
+    [] r.e = "DivPD" -> DivPD(st, FromStd(r.y))
+    [] r.e = "AddF" -> AddPD(st, Const(st, r.a))
+    [] r.e = "SubF" -> SubPD(st, Const(st, r.a))
+    [] r.e = "MulF" -> MulPD(st, Const(st, r.a))
+    [] r.e = "DivF" -> DivPD(st, Const(st, r.a))
+    [] r.e \in {"FillWide", "FillNarrow"} -> FilledFromSource(g, SrcGeo(r), r.vals)
 
-IsWrite(r) == r.e \in {"SetBin", "SetSino", "SetView", "SetSegV", "SetSegS", "SetRel", "Fill", "FillFrom", "FillIter", "IterSet", "IterCopy"}
-IsRead(r) == r.e \in {"GetBin", "GetSino", "GetView", "GetSegV", "GetSegS", "GetRel", "CopyTo", "CloneMem"}
+IsWrite(r) == r.e \in {"SetBin", "SetSino", "SetView", "SetSegV", "SetSegS", "SetRel", "Fill", "FillFrom", "FillIter", "IterSet", "IterCopy",
+                       "FillWide", "FillNarrow", "ArithBad"} \cup ArithNames
+IsRead(r) == r.e \in {"GetBin", "GetSino", "GetView", "GetSegV", "GetSegS", "GetRel", "CopyTo", "CloneMem", "Stats", "Subset", "StdSeq"}
 
 \* "a value written through any access path ... no other bin changes"; "Requests outside the index ranges are
 \* reported as errors instead of touching other data"
@@ -108,7 +142,7 @@ ReadInRange(r) ==
     [] r.e = "GetView" -> SegOk(g, r.seg) /\ ViewOk(g, r.view) /\ TofOk(g, r.tof)
     [] r.e \in {"GetSegV", "GetSegS"} -> SegOk(g, r.seg) /\ TofOk(g, r.tof)
     [] r.e = "GetRel" -> SegOk(g, r.seg) /\ ViewOk(g, r.view) /\ TofOk(g, r.tof)
-    [] r.e \in {"CopyTo", "CloneMem"} -> TRUE
+    [] r.e \in {"CopyTo", "CloneMem", "Stats", "Subset", "StdSeq"} -> TRUE
     [] OTHER -> FALSE
 
 \* "is read back unchanged through every other path": the returned container is the projection of the array
@@ -130,6 +164,22 @@ ReadResultOk(r) ==
                          /\ ReadOk(store, LAMBDA b : InRelated(b, RelPairs(r)), LAMBDA b : IdxRelated(g, RelPairs(r), b), r.vals, RelSize(g, RelPairs(r)))
     \* copy_to(iterator), and a copy ProjDataInMemory(const ProjData&) seen through its iterators: standard order
     [] r.e \in {"CopyTo", "CloneMem"} -> ReadOk(store, LAMBDA b : TRUE, LAMBDA b : stdT[b] + 1, r.vals, c.n)
+    \* reductions are bulk reads of the array: sum within the single-precision accumulation bound, extrema exactly, sum of
+    \* squares exactly and the norm to the nearest integer where the squares fit TLC's integers
+    [] r.e = "Stats" -> /\ ~c.fresh
+                        /\ r.sum - SumOf(store) <= SumTol(store) /\ SumOf(store) - r.sum <= SumTol(store)
+                        /\ r.max = MaxOf(store) /\ r.min = MinOf(store)
+                        /\ (SmallEnoughForSquares(store, c.n) =>
+                              /\ r.nsqInt /\ r.nsq = SumSqOf(store)
+                              /\ r.norm >= 0 /\ (r.norm = 0 \/ (r.norm - 1) * (r.norm - 1) <= SumSqOf(store))
+                              /\ SumSqOf(store) <= (r.norm + 1) * (r.norm + 1))
+    \* get_subset(views) and what the subset reports about itself; writing a subset to file is announced as
+    \* unsupported ("cannot write subset data yet"): error allowed, otherwise the pair must give the values back
+    [] r.e = "Subset" -> /\ ~c.fresh /\ SubsetOk(g, store, r.views, r.vals)
+                         /\ r.nv = Len(r.views) /\ r.orig = r.views
+                         /\ (r.werr \/ r.wvals = r.vals)
+    \* "This returns a vector filled as [0, 1, -1, 2, -2, ...]", continued with valid segment numbers only
+    [] r.e = "StdSeq" -> r.seq = StdSeq(g)
 ReadCallOk(r) == IF ReadInRange(r) THEN ~r.err /\ ReadResultOk(r) ELSE r.err
 
 \* ---- header + data re-read through ProjData::read_from_file while the writer is still open
@@ -176,6 +226,10 @@ Explains(r) ==
   ELSE IF IsRead(r) THEN ReadCallOk(r) /\ ObsOk(r, c, store, posT)
   ELSE IF r.e = "Reopen" THEN ReopenOk(r) /\ ObsOk(r, c, store, posT)
   ELSE IF r.e = "WriteToFile" THEN WriteToFileOk(r) /\ ObsOk(r, c, store, posT)
+  \* the writer is destroyed and the SAME file is re-opened for update from its header (history continues on the new
+  \* object), or a second writer object is opened on the file: nothing changes, the layout is recovered
+  ELSE IF r.e = "Reattach" THEN c.backing \in {"interfile", "hdrstream"} /\ ~r.err /\ LayoutEq(r) /\ r.pdiEq /\ ObsOk(r, c, store, posT)
+  ELSE IF r.e = "Second" THEN IsFile(c) /\ ~r.err /\ r.pdiEq /\ ObsOk(r, c, store, posT)
   ELSE FALSE       \* Abort and unknown events are never accepted
 
 \* An unexplained line is attributed to a known finding only by its exact signature (known_findings.jsonl);
@@ -195,6 +249,10 @@ Tof1Rest(r) ==
 Classify(r) ==
   IF c # NoCfg /\ Tof1 /\ r.e \in {"Reopen", "WriteToFile"} /\ (r.e = "Reopen" \/ ~c.fresh) /\ Tof1Rest(r) /\ ObsOk(r, c, store, posT)
      /\ (r.err \/ r.geo # r.geo0 \/ ~r.pdiEq)
+  THEN "C02-tof1hdr"
+  \* the same header re-opened for update / by a second writer: unreadable (Timing_ order) or geometry read back as non-TOF
+  ELSE IF c # NoCfg /\ Tof1 /\ r.e \in {"Reattach", "Second"} /\ c.backing \in {"interfile", "hdrstream"} /\ ObsOk(r, c, store, posT)
+          /\ ((r.err /\ TimingOrderOf(c)) \/ (r.e = "Reattach" /\ ~r.err /\ LayoutEq(r) /\ ~r.pdiEq) \/ (r.e = "Second" /\ ~r.err /\ ~r.pdiEq))
   THEN "C02-tof1hdr"
   ELSE IF c # NoCfg /\ ((r.e = "Reopen" /\ ReopenCore(r)) \/ (r.e = "WriteToFile" /\ WriteToFileCore(r)))
      /\ ObsOk(r, c, store, posT) /\ r.examx # r.examx0
